@@ -106,7 +106,7 @@ pub fn run_case(case: &Case, out: &mut Out) {
                 let l = ledger_size(&f) as u128;
                 let fee = f.tx().fee().unwrap_or(0) as u128;
                 let min = a as u128 * l + b as u128;
-                let fits = min <= u32::MAX as u128;
+                let fits = min <= u64::MAX as u128;
                 let era = era_tok(&f);
                 match guard_mut(|| f.validate()) {
                     None => out.panic(),
